@@ -57,3 +57,91 @@ Example C09_nonvacuous :
   inline consts P = And (Since (Prev (Pred CGeq (Var 0) (Const (Fin 1)))) (Prev (Pred CGeq (Var 0) (Const (Fin 1))))) (Once (Prev (Pred CGeq (Var 0) (Const (Fin 1))))) /\
   snd (mon_run ExtZArith (fun _ _ => PStd) (elab consts [] P) dict_init w 0 4) = [PosInf; Fin 2; Fin (-1); Fin (-2)].
 Proof. cbv zeta. split; vm_compute; reflexivity. Qed.
+
+(* ------------------------------------------------------------------ *)
+(* dense time, online (models DenseOnlineMon.v / DenseOnlineForest.v)  *)
+(* ------------------------------------------------------------------ *)
+From RV Require Dense DenseSem DenseMerge DenseMergeCorrect DenseOnlineMergeCorrect DenseOnlineMon DenseOnlineMonCorrect DenseOnlineMonMore DenseIA
+  DenseOnlineForest DenseOnlineForestCorrect.
+
+(* EVERY program (no fragment, any predicate kinds), every sequence of updates: when every assertion is a sub-formula of
+   the main one (every sub-specification is used, directly or through other sub-specifications; a sub-formula used
+   several times has ONE operation, stepped once per update), the dense-time online monitor of the program returns at
+   every update the list the monitor of the inlined specification returns, and raises in the same runs.
+   [None] is an exception; option_map snd forgets the final operator dictionary. *)
+Theorem C09_dense_online :
+  forall (VS : Val) (AR : Arith VS) (pk : formula -> formula -> pkind)
+         (consts : list (nat * V)) (P : program) (envs : list (list Dense.dsig)),
+    P <> [] ->
+    (forall p, In p (elab consts [] P) -> In p (DenseOnlineMonCorrect.subs (inline consts P))) ->
+    option_map snd (DenseOnlineForest.forest_run_out AR pk (elab consts [] P) (DenseOnlineForest.forest_init (elab consts [] P)) envs) =
+    option_map snd (DenseOnlineMon.mon_run AR pk (inline consts P) (DenseOnlineMon.mon_init (inline consts P)) envs).
+Proof.
+  intros VS AR pk consts P envs Hne Hused.
+  assert (HF' : elab consts [] P <> []) by (destruct P as [|[nm b] P']; [congruence|discriminate]).
+  exact (DenseOnlineForestCorrect.forest_inlined AR pk (elab consts [] P) envs HF' Hused).
+Qed.
+Print Assumptions C09_dense_online.
+
+(* without the hypothesis that every sub-specification is used: whenever the program returns, it returns what the
+   inlined specification returns (a sub-specification nobody uses is still evaluated and may raise: C09_dense_unused_assertion_raises) *)
+Theorem C09_dense_online_any :
+  forall (VS : Val) (AR : Arith VS) (pk : formula -> formula -> pkind)
+         (consts : list (nat * V)) (P : program) (envs : list (list Dense.dsig)) d outs,
+    P <> [] ->
+    DenseOnlineForest.forest_run_out AR pk (elab consts [] P) (DenseOnlineForest.forest_init (elab consts [] P)) envs = Some (d, outs) ->
+    option_map snd (DenseOnlineMon.mon_run AR pk (inline consts P) (DenseOnlineMon.mon_init (inline consts P)) envs) = Some outs.
+Proof.
+  intros VS AR pk consts P envs d outs Hne E.
+  assert (HF' : elab consts [] P <> []) by (destruct P as [|[nm b] P']; [congruence|discriminate]).
+  exact (DenseOnlineForestCorrect.forest_inlined_ok AR pk (elab consts [] P) envs d outs HF' E).
+Qed.
+Print Assumptions C09_dense_online_any.
+
+(* programs in the proved fragment of the dense online monitor (every assertion in frag2, sqrt / ln never raise: the
+   hypotheses of C05_monitor_general / C05_monitor_closed on every assertion): no update raises, used or not *)
+Theorem C09_dense_online_frag :
+  forall (VS : Val) (AR : Arith VS) (pk : formula -> formula -> pkind),
+    (forall f g, pk f g = PStd) \/ DenseIA.DiffLaws AR -> (forall l r : V, neg (a2 AR Sub l r) = a2 AR Sub r l) ->
+    forall (consts : list (nat * V)) (P : program) (W : list Dense.dsig) (tend : Z) (envs : list (list Dense.dsig)),
+      (forall x, DenseOnlineMonCorrect.feedsI [] (map (fun env => nth x env []) envs) (nth x W [])) ->
+      (forall x, DenseMergeCorrect.dsorted (nth x W [])) ->
+      (forall x, nth x W [] <> [] -> Dense.start (nth x W []) = 0%Z) ->
+      P <> [] ->
+      (forall p, In p (elab consts [] P) -> DenseOnlineMonMore.frag2 p = true /\ DenseOnlineMonMore.safe AR pk W tend p) ->
+      exists d d' outs,
+        DenseOnlineForest.forest_run_out AR pk (elab consts [] P) (DenseOnlineForest.forest_init (elab consts [] P)) envs = Some (d, outs) /\
+        DenseOnlineMon.mon_run AR pk (inline consts P) (DenseOnlineMon.mon_init (inline consts P)) envs = Some (d', outs).
+Proof.
+  intros VS AR pk HDL SubNeg consts P W tend envs Hfeed HWs HW0 Hne HF.
+  assert (HF' : elab consts [] P <> []) by (destruct P as [|[nm b] P']; [congruence|discriminate]).
+  exact (DenseOnlineForestCorrect.forest_online_out AR pk HDL SubNeg (elab consts [] P) W tend envs Hfeed HWs HW0 HF' HF).
+Qed.
+Print Assumptions C09_dense_online_frag.
+
+(* the literal property fails for a sub-specification nobody uses: it is evaluated at every update, and when it raises
+   (sqrt of a negative sample) update() raises, whereas the inlined specification, which does not contain it, returns.
+   sp = (sqrt(x0) >= 0);  out = (x0 >= 1)  on the single sample x0(0) = -1 *)
+Example C09_dense_unused_assertion_raises :
+  let P : @program ExtZVal := [(5, Pred CGeq (A1 Sqrt (Var 0)) (Const (Fin 0))); (6, Pred CGeq (Var 0) (Const (Fin 1)))] in
+  let F := elab [] [] P in
+  let envs := [[[(0%Z, Fin (-1))]]] in
+  option_map snd (DenseOnlineForest.forest_run_out ExtZArith (fun _ _ => PStd) F (DenseOnlineForest.forest_init F) envs) = None /\
+  option_map snd (DenseOnlineMon.mon_run ExtZArith (fun _ _ => PStd) (inline [] P) (DenseOnlineMon.mon_init (inline [] P)) envs)
+    = Some [[(DenseMerge.T 0%Z, Fin (-2))]].
+Proof. cbv zeta. split; vm_compute; reflexivity. Qed.
+
+Example C09_dense_nonvacuous :
+  (* sp = once[0,2](x0 >= c);  out = (sp since sp) and not(sp)  with c a declared constant, fed in two updates *)
+  let consts := [(7, Fin 1)] in
+  let P : @program ExtZVal := [(5, OnceT 0 2 (Pred CGeq (Var 0) (Var 7))); (6, And (Since (Var 5) (Var 5)) (Not (Var 5)))] in
+  let F := elab consts [] P in
+  let envs := [[[(0%Z, Fin 3); (2%Z, Fin 0)]]; [[(5%Z, Fin (-1)); (6%Z, Fin 4)]]] in
+  (forall p, In p F -> In p (DenseOnlineMonCorrect.subs (inline consts P))) /\
+  option_map snd (DenseOnlineForest.forest_run_out ExtZArith (fun _ _ => PStd) F (DenseOnlineForest.forest_init F) envs)
+    = Some [[(DenseMerge.T 0%Z, Fin (-2))]; [(DenseMerge.T 4%Z, Fin (-1))]].
+Proof.
+  cbv zeta. split.
+  - intros p Hp. vm_compute in Hp. vm_compute. tauto.
+  - vm_compute. reflexivity.
+Qed.
